@@ -9,6 +9,14 @@ COMMON_NOTE = ("Trusted base: rustc/cargo 1.80.1, serde/serde_json, syn, python 
                "see DESIGN.md section 4 'Outside' for what the bound leaves open.")
 
 CHECKS = {
+ "C12": dict(
+  text="Every document of the depth-2 space, of C07's recursion graphs and of a 'diamond' family (a definition outside a cycle reaching it through two children) is converted by the real parser + typify-impl from every key-order variant of its text (all permutations of the keys of every object with <=4 keys, rotations and reversal otherwise, at <=1 (quick) / <=2 (thorough) object nodes at a time) and three whitespace styles; to_stream() is called twice around an iter_types() walk; and the conversion is repeated in fresh processes under an LD_PRELOAD getrandom interposer for hash seeds 0..7 / 0..31. Oracle: byte-identical tokens.",
+  design="DESIGN.md 4/C12", technique="bounded exhaustive enumeration of input encodings on the implementation; enumerated hash seeds in fresh processes via getrandom interposition (seed leg not exhaustive, reported separately)",
+  note="The key-order/whitespace legs are exhaustive within the bound; the hash-order leg enumerates seeds (not the 2^128 key space) and is excluded from the exhaustive claim; an audit of every Hash(Map|Set) site in non-test code is written to the evidence. " + COMMON_NOTE),
+ "C14": dict(
+  text="Use-site matrix: a target definition (struct / string enum / constrained string newtype) used as required and optional member, Vec item, map value, tuple slot, newtype- and struct-variant payload, nullable union, alias and allOf member, next to independent definitions with map-typed members and inline conversion schemas with different annotations; all assignments of 8 settings features (replace, convert with/without annotations, patch rename+derive, global derive, BTreeMap, custom VMap, builder) with <=k on (k=2 quick, 3 thorough). Syntactic obligations are checked on the syn-parsed output of the real typify-impl; acceptance/round-trip vectors of unaffected types on compiled code are compared with those under default settings.",
+  design="DESIGN.md 4/C14", technique="bounded exhaustive settings enumeration on the implementation; structural scan + differential behaviour on compiled generated code",
+  note="Replacement/conversion/map targets live in verif_support::ext and meet exactly the documented requirements. " + COMMON_NOTE),
  "C17": dict(
   text="Bounded exhaustive enumeration of the depth-2 space (thorough: + pairs) x settings {type_mod none/'types', builder, map type}, plus replacement/conversion targets declared with every subset of {FromStr, Display, Default}; for every type the real Type API reports (name, ident, details, has_impl x3, builder) the facts are compared with a syn scan of the same output (properties == fields incl. required flag and type, variants == variants, newtype inner == field, builder() <=> builder item, iter_types() == emitted items, uses_* flags vs crate paths in the tokens) and turned into compiled assertions placed outside the module named by type_mod.",
   design="DESIGN.md 4/C17", technique="bounded exhaustive enumeration; API-vs-parsed-output comparison and compiled assertions generated from the API's own answers",
